@@ -112,6 +112,14 @@ fn build(tier: Tier) -> Vec<Scenario> {
             ));
         }
     }
+    // the templates once more with adaptive batching (timeout paths of Start and Batcher)
+    {
+        let cfg = JobCfg { layout: Layout::Local(2), batch: BatchMode::adaptive(2, std::time::Duration::from_millis(10)), capacity: 0 };
+        let src = SrcKind::Par(vec![0, 1, 0, 1]);
+        for prog in templates().into_iter().filter(|p| well_formed(p, src.rep()).is_some()) {
+            out.push(program_scenario("C01/adaptive", &prog, &[1, 2, 3, 4], src.clone(), &cfg, bound, &ORDERS3[..1], String::new()));
+        }
+    }
     // count windows depend on arrival order: fully sequential configuration only
     let seq_cfg = JobCfg { layout: Layout::Local(1), batch: BatchMode::fixed(2), capacity: 0 };
     let seq_progs: Vec<Program> = vec![
